@@ -103,7 +103,7 @@ def run_unit_blake(tier):
             n += 1
             for nm, v in pa[0].value.fields().items():
                 mine = float(alg.numeric(sp.sympify(v), pt2, 20)); real = o_['fields'][nm][0]
-                if abs(mine - real) > 1e-8 * max(abs(mine), abs(real)) + 1e-300:
+                if abs(mine - real) > 1e-8 * max(abs(mine), abs(real)) + 1e-18:
                     res['engine_errors'].append('translation validation Blake._run field %s: extracted %.12g real %.12g at %s' % (nm, mine, real, core.jval(p_)))
         res['tv'] = {'functions': 1, 'points': n, 'mismatches': len(res['engine_errors'])}
     except Exception as e:
